@@ -331,6 +331,23 @@ def run(case):
                 else:
                     continue
                 assert q() == keep, "editing the %s() answer changed what %s() answers next" % (what, what)
+            # ... and an answer the caller kept is a snapshot: later edits of the annotation do not reach it
+            c_ = a.copy()
+            kept = [(what, f(), None) for what, f in (("labels", lambda: c_.labels()), ("chart", lambda: c_.chart()),
+                                                      ("get_tracks", lambda: c_.get_tracks(S0)), ("get_labels", lambda: c_.get_labels(S0)),
+                                                      ("get_labels(unique=False)", lambda: c_.get_labels(S0, unique=False)),
+                                                      ("get_timeline", lambda: c_.get_timeline()), ("label_timeline", lambda: (c_.label_timeline(c_.labels()[0]) if c_.labels() else None)))]
+            import copy as _copy
+            kept = [(what, r, _copy.copy(r) if not hasattr(r, "segments_list_") else list(r)) for what, r, _ in kept]
+            c_[S0, "zz_track"] = "zz_label"
+            for t_ in sorted(c_.get_tracks(S0), key=str)[:1]:
+                del c_[S0, t_]
+            c_[Segment(tb.t(7000), tb.t(7001)), "zz_track2"] = "zz_label2"
+            c_.labels(); c_.get_timeline()
+            for what, r, snap in kept:
+                now = r if not hasattr(r, "segments_list_") else list(r)
+                assert now == snap and (not isinstance(snap, (set, frozenset)) or isinstance(r, (set, frozenset))), \
+                    "the %s() answer kept by the caller changed when the annotation was edited" % what
         elif op == "absent_label":
             # every query that takes a label, asked about a label the annotation does not carry
             for lab in ("zz_absent", 12345, ""):
